@@ -4,7 +4,7 @@ import vlib
 
 
 def key(c):
-    return (c["api"], c["n"], c["hdr"], tuple(c["items"]))
+    return (c["api"], c["n"], c["hdr"], tuple(c["items"]), c.get("idpat", "own"))
 
 
 def run(ctx):
@@ -61,7 +61,7 @@ def run(ctx):
             sig = "%s:%s->%s%s" % (c["api"], "+".join(cls) if c["hdr"] == "match" and len(c["items"]) == c["n"] else "counts", got["outcome"].split(":")[0],
                                   "" if got["outcome"] != "error" else "(status/reason/message missing)")
         ctx.violation(sig, "%s of %s with response shape hdr=%s items=%s: specification allows %s, real client gave %s" % (
-            c["api"], x["op"], c["hdr"], c["items"], exp, json.dumps(got)), {"case": c, "op": x["op"], "got": got})
+            c["api"], x["op"], c["hdr"] + "/ids=" + c.get("idpat", "own"), c["items"], exp, json.dumps(got)), {"case": c, "op": x["op"], "got": got})
     ctx.traces_validated = 0
     ctx.finish("model_checking", {
         "evaluations": runs,
